@@ -1,4 +1,5 @@
 """Per-property checks: proof obligations + correspondence streams + failing-input search + evidence."""
+import time
 import os, sys, json, time, random, re, collections, itertools
 import vlib, streams
 from vlib import log, enc, dec, ORACLE
@@ -26,11 +27,73 @@ class Ctx:
         self.nontrivial = 0
         self.validated = 0
         self.notes = []
+        self.replay_pool = []      # (case line, extracted model's answer): a sample is re-evaluated inside Coq
+        self.replay_seen = 0
+
+
+def pool_for_coq(ctx, lines, model):
+    """reservoir sample of short cases for the in-Coq re-evaluation of the extracted model"""
+    cap = 40 if ctx.tier == 'thorough' else 8
+    for l, b in zip(lines, model):
+        if len(l) > 1500 or 'steplimit' in b or b.startswith(('driver', 'crash', 'not-run')): continue
+        ctx.replay_seen += 1
+        if len(ctx.replay_pool) < cap: ctx.replay_pool.append((l, b))
+        else:
+            j = ctx.rng.randrange(ctx.replay_seen)
+            if j < cap: ctx.replay_pool[j] = (l, b)
+
+
+def coq_replay(ctx):
+    """the extraction check: the same case lines through [Eval vm_compute in run_case ...] inside Coq must give what the
+    extracted OCaml program printed"""
+    if not ctx.replay_pool or not getattr(ctx.st, 'coq_dir', None): return 0
+    import subprocess
+    d = ctx.st.coq_dir
+    name = 'cases_%s_%d' % (ctx.pid, os.getpid())
+    src = ['From Pakhi Require Import Base Driver.']
+    for i, (l, _) in enumerate(ctx.replay_pool):
+        # the budget of a replayed run is cut down: the Coq VM is slower than the extracted code
+        src.append('Definition c%d : list N := [%s]%%N.' % (i, '; '.join(str(ord(c)) for c in l)))
+        src.append('Eval vm_compute in (run_case c%d).' % i)
+    path = os.path.join(d, name + '.v')
+    open(path, 'w', encoding='utf-8').write('\n'.join(src) + '\n')
+    try:
+        r = subprocess.run(['bash', '-c', 'ulimit -s unlimited 2>/dev/null; ulimit -v 12000000; exec coqc -noglob -Q "$0" Pakhi "$1"', d, path], capture_output=True, text=True, timeout=600)
+        out, rc = r.stdout, r.returncode
+    except subprocess.TimeoutExpired:
+        out, rc = '', 124
+    for ext in ('.v', '.vo', '.vok', '.vos', '.glob'):
+        try: os.remove(os.path.join(d, name + ext))
+        except OSError: pass
+    try: os.remove(os.path.join(d, '.' + name + '.aux'))
+    except OSError: pass
+    if rc == 124:
+        ctx.notes.append('in-Coq replay timed out (%d cases); not counted' % len(ctx.replay_pool)); return 0
+    answers = out.split(': text')[:-1] if ': text' in out else []
+    if rc != 0 or len(answers) != len(ctx.replay_pool):
+        ctx.broken.append('in-Coq replay (cases.v) did not evaluate: rc=%d, %d answers for %d cases' % (rc, len(answers), len(ctx.replay_pool))); return 0
+    n = 0
+    for (l, b), a in zip(ctx.replay_pool, answers):
+        got = ''.join(chr(int(x)) for x in re.findall(r'(\d+)(?:%N)?\s*[;\]]', a))
+        n += 1
+        if got != b and len(ctx.failing) < 6:
+            ctx.failing.append({'stream': 'coq-replay', 'why': 'the extracted model and its evaluation inside Coq (vm_compute) disagree: extraction or driver glue is wrong', 'case_line': l,
+                                'extracted': b[:1500], 'in_coq': got[:1500]})
+    return n
 
 
 def oracle_and_model(ctx, lines, tag, timeout_ms=5000):
+    if tag == 'shr':
+        # shrinking candidates: a candidate on which the model does not answer within a minute is not pursued
+        impl = vlib.run_sharded(ORACLE, lines, tag + 'o', timeout_ms=timeout_ms, total_timeout=60)
+        model = vlib.run_sharded(ctx.st.model_exe, lines, tag + 'm', timeout_ms=timeout_ms, total_timeout=60)
+        for i, b in enumerate(model):
+            if b.startswith('driver-timeout') or b.startswith('not-run') or b.startswith('crash'):
+                impl[i] = model[i] = 'out  | res shrink-timeout'
+        return impl, model
     impl = vlib.run_sharded(ORACLE, lines, tag + 'o', timeout_ms=timeout_ms)
     model = vlib.run_sharded(ctx.st.model_exe, lines, tag + 'm', timeout_ms=timeout_ms)
+    pool_for_coq(ctx, lines, model)
     return impl, model
 
 
@@ -216,6 +279,7 @@ def run_property(pid, tier, seed, t0):
         ctx.notes.append('correspondence and search ran against the model built from the committed reference tables')
     for s in spec['streams']:
         s(ctx)
+    replayed = coq_replay(ctx)
     # known findings
     known = vlib.load_known_findings(pid)
     new_failing = []
@@ -249,6 +313,7 @@ def run_property(pid, tier, seed, t0):
         'streams': ctx.streams, 'notes': ctx.notes,
         'tables_regenerated_from_source': st.tables_generated, 'tables_equal_reference': not st.tables_differ_from_reference,
         'known_findings_reproduced': len(ctx.known_hits),
+        'cases_reevaluated_inside_coq': replayed,
     }
     if coverage['discharged'] < 1:
         # the schema's proof-level keys require discharged >= 1; a run in which obligations failed reports the
@@ -320,7 +385,8 @@ def shrink_lines(src, still_fails):
     cur = lines
     n = 2
     rounds = 0
-    while len(cur) > 1 and rounds < 30:
+    t_end = time.time() + 45          # shrinking is a convenience for the replay, never worth minutes
+    while len(cur) > 1 and rounds < 30 and time.time() < t_end:
         rounds += 1
         size = max(1, len(cur) // n)
         cands = [cur[:i] + cur[i + size:] for i in range(0, len(cur), size)]
